@@ -333,7 +333,7 @@ def project(root, top='Manifest', namer=None, cidnames=None, max_nodes=4000):
             if not stat.S_ISREG(st.st_mode):
                 continue
             raw = read_logical(root, mp)
-        except OSError:
+        except (OSError, ValueError):        # ValueError: a name the OS cannot take (NUL, lone surrogate)
             continue
         comp = compression_of(mp)
         try:
